@@ -139,10 +139,10 @@ def gen_async_seq(ctx):
 
 
 # ----------------------------------------------------------------------------- configurations
-def cfg_line(nh, close, senders, sig=(), free="safe", eintr=0, cap=None, fork=0, stop=0):
-    return ("cfg nh=%d close=%s senders=%s sig=%s free=%s eintr=%d cap=%s fork=%d stop=%d" % (
+def cfg_line(nh, close, senders, sig=(), free="safe", eintr=0, cap=None, fork=0, stop=0, spin=0):
+    return ("cfg nh=%d close=%s senders=%s sig=%s free=%s eintr=%d cap=%s fork=%d stop=%d spin=%d" % (
         nh, ",".join(map(str, close)) or "-", ";".join(",".join(map(str, p)) for p in senders) or "-",
-        ",".join(f"{t}:{v}" for t, v in sig) or "-", free, eintr, "-" if cap is None else cap, fork, stop))
+        ",".join(f"{t}:{v}" for t, v in sig) or "-", free, eintr, "-" if cap is None else cap, fork, stop, spin))
 
 
 DFS_QUICK = [
@@ -163,6 +163,7 @@ DFS_QUICK = [
     cfg_line(2, [1], [[0], [1]], fork=1),             # ... with a second sender thread (lost in the child when mid-send) and a close
     cfg_line(2, [], [[0], [1]], stop=1),              # uv_stop() from an async callback with both handles signalled; the loop is run again
     cfg_line(2, [1], [[0, 1, 0]], stop=2),
+    cfg_line(1, [0], [[0], [0]], spin=3),             # the closer spins while a sender is frozen inside the busy section (any point)
 ]
 DFS_THOROUGH = [
     cfg_line(1, [0], [[0, 0], [0]]),
@@ -172,17 +173,16 @@ DFS_THOROUGH = [
     cfg_line(2, [], [[0, 1], [1, 0]]),
     cfg_line(2, [0], [[0], [1]], sig=[(1, "l")]),
     cfg_line(2, [0], [[0], [1], [0]]),
-    cfg_line(2, [0, 1], [[0, 1], [1, 0]]),
     cfg_line(3, [1], [[0, 1], [2, 1]]),
     cfg_line(1, [0], [[0, 0], [0, 0]]),
     cfg_line(2, [1], [[0], [1], [1]], sig=[(2, "l")]),
-    cfg_line(2, [1], [[0, 1], [1, 0]], eintr=2, cap=1),
-    cfg_line(1, [0], [[0], [0], [0]], eintr=1),
     cfg_line(2, [], [[0, 1], [1]], sig=[(1, "l")], eintr=2, cap=2),
-    cfg_line(2, [0], [[0, 1, 0], [1, 0]], fork=2),
+    cfg_line(2, [1], [[0, 1], [1]], eintr=1, cap=1),
+    cfg_line(1, [0], [[0], [0]], spin=998),
+    cfg_line(2, [0], [[0, 1], [1]], fork=2),
     cfg_line(1, [0], [[0, 0], [0]], fork=1, eintr=1, cap=1),
-    cfg_line(3, [1], [[0, 1], [2, 1]], stop=2),
-    cfg_line(2, [0], [[0, 1], [1, 0]], stop=1, fork=1, eintr=1),
+    cfg_line(2, [1], [[0, 1], [1, 0]], stop=1),
+    cfg_line(2, [0], [[0, 1], [1]], stop=1, fork=1, eintr=1),
 ]
 PROBE_FREE_IN_CB = cfg_line(1, [0], [[0]], free="cb")
 
@@ -198,7 +198,8 @@ def gen_rand_cfg(rng):
         v = rng.choice(["l"] + [x for x in range(ns) if x != t])
         sig = [(t, v)]
     return cfg_line(nh, close, senders, sig, eintr=rng.choice([0, 0, 1, 2, 3]), cap=rng.choice([None, None, 1, 2]),
-                    fork=rng.choice([0, 0, 1, 2]), stop=rng.choice([0, 0, 1, 2]))
+                    fork=rng.choice([0, 0, 1, 2]), stop=rng.choice([0, 0, 1, 2]),
+                    spin=rng.choice([0, 0, 0, 0, 0, 0, 1, 1100]))
 
 
 # ----------------------------------------------------------------------------- running and comparing
@@ -222,8 +223,8 @@ def in_window_switches(path_states):
     n = 0
     for i in range(1, len(path_states)):
         (t0, st0), (t1, _) = path_states[i - 1], path_states[i]
-        th0 = "l" if t0[0] in "lcfikx" else "s" + t0[1:]
-        th1 = "l" if t1[0] in "lcfikx" else "s" + t1[1:]
+        th0 = "l" if t0[0] in "lcfikxp" else "s" + t0[1:]
+        th1 = "l" if t1[0] in "lcfikxp" else "s" + t1[1:]
         if th0 == th1:
             continue
         if th0 == "l":
@@ -339,7 +340,7 @@ def report(ctx, exe, viols, label):
         seen.add(sig)
         rep = shrink(ctx, exe, sig, rep)
         ctx.violation(sig, f"C09 ({label}) {sig}: {what}; configuration `{rep['cfg']}`, schedule `{rep['sched']}` "
-                           f"(s<t> = next step of sender t, l = loop thread step, c<h> = uv_close(h), f = run close callbacks, e<t> = sender t's eventfd write answers EINTR, i = the loop's eventfd read answers EINTR, k = fork + uv_loop_fork, continue in the child, x = uv_stop() inside the current callback)", rep)
+                           f"(s<t> = next step of sender t, l = loop thread step, c<h> = uv_close(h), f = run close callbacks, e<t> = sender t's eventfd write answers EINTR, i = the loop's eventfd read answers EINTR, k = fork + uv_loop_fork, continue in the child, x = uv_stop() inside the current callback, p = the closing loop thread takes spin=<N> uv__async_spin iterations in a row)", rep)
 
 
 def run(ctx):
@@ -414,6 +415,11 @@ def run(ctx):
     ]
     corpus.append((cfg_line(2, [0, 1], [[0]]), "s0 s0 s0 s0 s0 s0 l l l c0 l l c1 l l l l f"))   # h0's callback closes itself, then its neighbour
     corpus.append((cfg_line(1, [0], [[0], [0]]), "s0 s0 s0 s0 s1 s1 l l l l s1 s1 s1 s1 s1 c0 l s0 s0 l"))  # two overlapping senders, close while one is parked at the eventfd write
+    # bounded unfairness: a sender parked inside the busy section (before the exchange / before the eventfd write) for N
+    # consecutive uv__async_spin iterations of the closing loop thread (997 spins, then sched_yield, then again)
+    for n in (1, 996, 997, 998, 2000, 5000):
+        corpus.append((cfg_line(1, [0], [[0]], spin=n), "s0 s0 s0 s0 c0 l p s0 s0 l f"))
+        corpus.append((cfg_line(2, [0], [[0], [0, 1]], spin=n), "s0 s0 s0 s1 s1 s1 s1 c0 l p s1 s0 p s0 s0 s1 l f"))
     for c, sc in corpus:
         batch(f"{c}\nsched {sc}\n", "corpus")
 
@@ -465,14 +471,15 @@ def run(ctx):
     for c in dfs_cfgs:
         batch(f"{c}\ndfs\n", "dfs")
         ctx.log("dfs", c, stats_all[-1] if stats_all else "")
+        stats_all[-1:] = [f"{c} :: {stats_all[-1]}"] if stats_all else []
 
     # random schedules over random configurations
-    ncfg = ctx.scale(60, 600)
-    runs = ctx.scale(40, 120)
+    ncfg = ctx.scale(60, 200)
+    runs = ctx.scale(40, 100)
     text = "".join(f"{gen_rand_cfg(ctx.rng)}\nrand {ctx.rng.next() % (2**62)} {runs}\n" for _ in range(ncfg))
     batch(text, "random")
 
-    ctx.notes["exploration"] = stats_all[:40]
+    ctx.notes["exploration"] = stats_all[:60]
     ctx.notes["dfs_states_total"] = sum(int(m.group(1)) for l in stats_all for m in [re.search(r"dfs states=(\d+)", l)] if m)
     ctx.notes["dfs_configurations"] = sum(1 for l in stats_all if "dfs states=" in l)
     ctx.notes["random_schedules"] = sum(int(m.group(1)) for l in stats_all for m in [re.search(r"rand runs=(\d+)", l)] if m)
@@ -480,16 +487,17 @@ def run(ctx):
         # something no longer checks: look for a failing schedule with the monitors alone, enlarged scopes
         ctx.log("searching for a failing schedule with the monitors alone")
         found = len(ctx.violations)
-        for c in DFS_QUICK + DFS_THOROUGH:
-            batch(f"{c}\ndfs\n", "search-dfs", compare=False)
-            if len(ctx.violations) > found:
+        deadline = time.time() + ctx.scale(90, 240)        # the search is bounded in wall-clock time
+        tried = [0, 0]
+        for c in DFS_QUICK + DFS_THOROUGH[:6]:
+            if time.time() > deadline or len(ctx.violations) > found:
                 break
-        if len(ctx.violations) == found:
-            text = "".join(f"{gen_rand_cfg(ctx.rng)}\nrand {ctx.rng.next() % (2**62)} {runs}\n" for _ in range(ncfg * 20))
-            batch(text, "search-random", compare=False)
-        ctx.notes["search"] = (f"monitors alone over {len(DFS_QUICK + DFS_THOROUGH)} exhaustive configurations and "
-                               f"{ncfg * 20} random configurations x {runs} schedules: "
-                               + ("failing schedule found" if len(ctx.violations) > found else "no failing schedule"))
+            batch(f"{c}\ndfs\n", "search-dfs", compare=False); tried[0] += 1
+        while time.time() < deadline and len(ctx.violations) == found:
+            text = "".join(f"{gen_rand_cfg(ctx.rng)}\nrand {ctx.rng.next() % (2**62)} {runs}\n" for _ in range(40))
+            batch(text, "search-random", compare=False); tried[1] += 40
+        ctx.notes["search"] = (f"monitors alone over {tried[0]} exhaustive configurations and {tried[1]} random configurations x {runs} "
+                               f"schedules (time-bounded): " + ("failing schedule found" if len(ctx.violations) > found else "no failing schedule"))
     ctx.cov["rule"] = ("case = one scheduler step of the real async.c compared with the model (exhaustive DFS with visited-state "
                        "pruning over the listed small configurations; random schedules over random configurations of 1-3 handles, "
                        "1-4 senders, optional uv_close and signal-handler senders); non-trivial = execution path with >= 2 context "
